@@ -1232,6 +1232,49 @@ func CloneFaithful(p *core.Prog, r *core.Report) {
 		r.Unk(rule, "clone", "-", "deepCloneSchema not found: how spec validation copies schemas is not known")
 		return
 	}
+	// the trial expansion of a resolvability predicate works on a deep copy: spec.ExpandSchema rewrites its argument
+	// in place, maps and sub-schemas included; on a shallow copy (`probe := *schema`) it rewrites what the copy
+	// shares with the schema the walker is about to descend into — a property {"$ref": …, "default": "bad"} is
+	// replaced by the target of the reference and loses its sibling default before anybody judged it
+	for _, f := range p.Funcs {
+		if f.Parent() != nil || !resolvabilityPredicate(f) {
+			continue
+		}
+		core.EachInstr(f, func(i ssa.Instruction) {
+			c, ok := i.(*ssa.Call)
+			if !ok {
+				return
+			}
+			g := core.StaticCallee(c)
+			if g == nil || core.QualName(g) != "spec.ExpandSchema" {
+				return
+			}
+			key := core.FuncName(f) + ":probe"
+			al, isAl := c.Call.Args[0].(*ssa.Alloc)
+			deep := false
+			if isAl {
+				for _, ref := range core.Refs(al) {
+					st, isSt := ref.(*ssa.Store)
+					if !isSt || st.Addr != ssa.Value(al) {
+						continue
+					}
+					deep = false
+					if ex, isEx := st.Val.(*ssa.Extract); isEx {
+						if cc, isC := ex.Tuple.(*ssa.Call); isC {
+							if h := core.StaticCallee(cc); h != nil && h == clone {
+								deep = true
+							}
+						}
+					}
+				}
+			}
+			if deep {
+				r.OK(rule, key, p.Pos(c.Pos()), "the trial expansion runs on a deep copy of the schema")
+			} else {
+				r.Bad(rule, key, p.Pos(c.Pos()), "the trial expansion of "+core.FuncName(f)+" does not run on a deep copy of the schema: spec.ExpandSchema works in place, so the maps and sub-schemas a shallow copy shares with the walked schema are rewritten — a property {\"$ref\": …, \"default\": …} loses its sibling default or example before the walker reaches it, and an invalid one is silently accepted")
+			}
+		})
+	}
 	usesJSON := false
 	core.EachInstr(clone, func(i ssa.Instruction) {
 		if c, ok := i.(ssa.CallInstruction); ok {
